@@ -1,6 +1,7 @@
 package props
 
 import (
+	"bytes"
 	"fmt"
 	"runtime/debug"
 	"sort"
@@ -389,6 +390,29 @@ func c08Judge(c *wk.Ctx, t *c08Transcript, f c08Fault, res *c08Outcome, wit map[
 		c.Count("executes_succeeded")
 		w := map[string]any{"fault": wit, "run": e.Spec.RunID, "work_done_ends_at": end, "result": fmt.Sprintf("%v %v", e.Result.OutputID, cmpx.CanonLoose(e.Result.OutputData))}
 		if f.kind == rig.FaultFlip {
+			// decidable part of the flips: the byte that was hit is the header of this run's work-done message or
+			// lies in the text of one of its envelope keys (id / run_id / data) - what arrives is then not that
+			// message, whatever else it is
+			for _, m := range t.msgs {
+				if m.terminalFor != e.Spec.RunID || f.at < m.start || f.at >= m.end {
+					continue
+				}
+				rel := int(f.at - m.start)
+				hit := rel == 0
+				for _, key := range []string{"\x62id", "\x66run_id", "\x64data"} {
+					if i := bytes.Index(m.bytes, []byte(key)); i >= 0 && rel > i && rel <= i+len(key)-1 {
+						// (the decoder matches field names without regard to case: a flipped case bit changes nothing)
+						was, is := m.bytes[rel], m.bytes[rel]^f.garbage[0]
+						if bytes.ToLower([]byte{was})[0] != bytes.ToLower([]byte{is})[0] {
+							hit = true
+						}
+					}
+				}
+				if hit {
+					c.Count("flips_in_the_envelope_of_a_work_done")
+					c.Violation("C08:fabricated-success:work-done-envelope-corrupted", fmt.Sprintf("Execute(%s) reports success although the envelope of its work-done message was corrupted (byte %d of the message, mask %#x): the result cannot have come from that message", e.Spec.RunID, rel, f.garbage[0]), w)
+				}
+			}
 			continue
 		}
 		if end < 0 || t.expectID[e.Spec.RunID] == "" {
